@@ -74,6 +74,7 @@ RunOps(ops, bs, em) ==
       [] o[1] = "retcyclicobj" -> [oc |-> "fail", cls |-> "badreturn", bs |-> bs, em |-> <<>>, pem |-> em]
       [] o[1] = "retnan"    -> [oc |-> "fail", cls |-> "badreturn", bs |-> bs, em |-> <<>>, pem |-> em]
       [] o[1] = "retgetterbad" -> [oc |-> "fail", cls |-> "thrown", bs |-> bs, em |-> <<>>, pem |-> em]
+      [] o[1] = "retdeepshared" -> [oc |-> "fail", cls |-> "badreturn", bs |-> bs, em |-> <<>>, pem |-> em]
       [] o[1] = "matchdeep" -> [oc |-> "fail", cls |-> "badreturn", bs |-> bs, em |-> <<>>, pem |-> em]
 
 Run(ops, bs) == RunOps(ops, bs, <<>>)
